@@ -136,4 +136,5 @@ func genC16(c *Ctx) {
 		}
 	}
 	c16Conv(c)
+	renegotiations(c)
 }
